@@ -136,6 +136,8 @@ class C13(Check):
                    'ctx': rng.choice(['top', 'group']), 'ngroups': rng.randint(2, 4), 'n': n, 'F': F, 'perm_seed': rng.randrange(1 << 30)}
 
     # ------------------------------------------------------------------
+    _router = None
+
     def _items(self, case):
         """ids 0..n-1 in a pseudo-random group interleaving; starmap works on (group, id) pairs"""
         r = random.Random(case['perm_seed'])
@@ -159,7 +161,11 @@ class C13(Check):
         elif handler == 'error_map':
             ops_.append(rs.error.map(g_err))
         elif handler == 'router':
-            errors, route = rs.error.create_error_router()
+            # ONE router pair serves every run of this process (re-subscribed per stream, as a long-lived
+            # application would): the dead letter of a finished stream must not poison the next one
+            if self._router is None:
+                C13._router = rs.error.create_error_router()
+            errors, route = self._router
             dead = Snap()
             dead.completions = 0
             _oc = dead.on_completed
